@@ -142,6 +142,13 @@ C07_ASSUME = ["the emitted method bodies are read back through the statement for
               "C++ semantics of the unsigned state_ member (width read from the emitted declaration) transcribed in the harness; Impl results are arbitrary booleans"]
 PYG = "py_generated"
 
+C04_EMBED_PART = (G, "gosym_part", dict(name="c04_embed", entry="internal/zzverif.C04Embed",
+                                        required_sites=("cpp-embeds-schema-verbatim", "python-embeds-schema-verbatim", "matlab-embeds-schema-verbatim",
+                                                        "cpp-reader-uses-writer-schema", "cpp-version-from-schema-ends-in-throw", "schema-has-no-delimiter-clash"),
+                                        assumptions=["model family of C04 with concrete lengths; comments on/off; primitive names symbolic"],
+                                        desc="the real C++, Python and MATLAB protocol emitters embed GetProtocolSchemaString(P) verbatim exactly once as the writer's schema, "
+                                             "readers refer to the writer's schema, and the emitted C++ VersionFromSchema compares with schema_ and ends in a throw"))
+
 PARTS = {
     "C08": [
         (G, "gosym_part", dict(name="c08_python_package", entry="internal/zzverif.C08PythonPackage",
@@ -231,10 +238,12 @@ PARTS = {
         (PY, "c17_py_batching", dict()),
     ],
     "C15": [
+        C04_EMBED_PART,
         (CC, "c15_cc_header", dict()),
         (PY, "c15_py_header", dict()),
     ],
     "C04": [
+        C04_EMBED_PART,
         (G, "gosym_part", dict(name="c04_neutral", entry="internal/zzverif.C04Neutral", args_quick=(1,), args_thorough=(0,),
                                required_sites=("neutral-edit-keeps-schema", "no-comment-in-schema", "no-computed-field-in-schema", "no-position-in-schema"),
                                assumptions=C04_ASSUME,
